@@ -2,7 +2,10 @@ mod common;
 mod py;
 mod c01_05;
 mod c03cli;
+mod c06;
 mod c09_12;
+mod cli;
+mod ws;
 mod c10;
 mod c12cli;
 mod factcheck;
@@ -92,6 +95,7 @@ fn table(prop: &str) -> Option<(RunFn, ReplayFn)> {
         "C03" => (props::c03_run, props::c03_replay),
         "C04" => (props::c04_run, props::c04_replay),
         "C05" => (props::c05_run, props::c05_replay),
+        "C06" => (c06::run, c06::replay),
         "C09" => (props::c09_run, props::c09_replay),
         "C10" => (c10::run, c10::replay),
         "C11" => (props::c11_run, props::c11_replay),
